@@ -593,7 +593,7 @@ func (c *Checker) checkReadPMT() {
 			}
 			cs := sx(ifi.Cond)
 			usesPID := strings.Contains(cs, pidFn.String()+"(") || strings.Contains(cs, "packet.Packet).PID(")
-			if usesPID && strings.Contains(cs, "$pid") {
+			if usesPID && strings.Contains(canonConstruct(fn, cs), "$p1") { // the pid parameter, whatever it is called
 				if (strings.Contains(cs, "==") && id.Succs[0] == b) || (strings.Contains(cs, "!=") && id.Succs[1] == b) {
 					okGate = true
 				}
